@@ -1,7 +1,7 @@
 (* C25 property theorems. Nothing but statements closed by `exact`, Print Assumptions and non-vacuity examples. *)
 From Coq Require Import List ZArith String Bool.
 From GoProbe.Base Require Import CorrLib.
-From GoProbe.C25 Require Import Model Proofs1 Proofs2 Proofs3 Proofs4 Proofs5 Proofs6 Proofs7 Proofs8 Proofs9.
+From GoProbe.C25 Require Import Model Proofs1 Proofs2 Proofs3 Proofs4 Proofs5 Proofs6 Proofs7 Proofs8 Proofs9 Proofs10.
 Import ListNotations.
 Open Scope Z_scope.
 
@@ -47,11 +47,17 @@ Theorem c25_leftovers_invisible : forall nm dst src o k, is_stage (n_stage nm) =
   /\ (forall i ds t n c, walk s i = Ok ds -> In (t, n, c) ds -> is_backup n = false)
   /\ (forall i ds d, list_days s i = Ok ds -> In d ds -> is_backup (snd (fst d)) = false)
   /\ (forall nm' i ts dn, In dn (prefix_matches nm' s i ts) -> is_backup dn = false)
+  (* the literal bisection + scans of binarySearchPrefix (prefix_search) returns only non-backup names with the
+     prefix. NOT proved: that it FINDS the day directory whenever one exists wherever leftovers sort (needs the
+     contiguity of prefix matches in the sorted listing); that half is pinned by the run: corr compares the real
+     search result with the literal model at every crash point for every day of the month, holds requires the
+     result to be the day directory the walk sees. *)
+  /\ (forall nm' i ts x, prefix_search nm' s i ts = Some x -> is_backup x = false /\ has_prefix (n_tsname nm' ts) x = true)
   /\ (forall o', plans o' (strip_leftovers s) src = plans o' s src)
   /\ (forall a y m dn, exists dnb, backup_path nm [a; y; m; dn] = [a; y; m; dnb] /\ is_backup dnb = true
                                    /\ leftover (backup_path nm [a; y; m; dn], NDir Empty) = true)
   /\ (forall r n, leftover (n_stage nm :: r, n) = true).
-Proof. exact leftovers_invisible'. Qed.
+Proof. exact leftovers_invisible''. Qed.
 Print Assumptions c25_leftovers_invisible.
 
 (* "never both, never neither" for the completed merge: for every plan the merge executes (every non-skipped
